@@ -8,6 +8,14 @@
 //!         [3, ri, off, len]                                          reset_addr_range
 //!         [4, ri, rj, doff, dlen, nchain, (dop, x, y, z)*]           slice-to-slice copy: accessor derived from region ri
 //!                                                                    (slice or array) .copy_to_volatile_slice(region rj .get_slice(doff, dlen))
+//!         [5, ri, rk, rx, ry, rz, opcode, a1, a2, a3, a4, nchain, (dop, x, y, z)*]   as step 0, but the FIRST accessor is
+//!               rk = 0 region.as_volatile_slice()      1 MmapRegion::get_slice(rx, ry) (the mapping behind the region, Deref)
+//!                    2 GuestRegionMmap::get_slice(MemoryRegionAddress(rx), ry)      3 gm.get_slice(GuestAddress(rx), ry)
+//!                    4 MmapRegion::get_ref::<T>(rx), size_of T = ry                 5 MmapRegion::get_array_ref::<T>(rx, rz), size_of T = ry
+//!         [6, ri, opcode, a1, a2, a3, a4]      REGION layer: the op issued as regs[ri].<op>(.., MemoryRegionAddress(a2)) (Bytes<MemoryRegionAddress>);
+//!               opcodes of the slice level (0 1 2 4 5 6 7 8 9 11 12 19) + 21 write_obj::<T> / 22 read_obj::<T> (size_of T = a1)
+//!         [7, ri, rk, rx, ry, rz, rj, doff, dlen, nchain, (dop, x, y, z)*]   as step 4, source chain from first accessor rk (not 3),
+//!               destination regs[rj].get_slice(MemoryRegionAddress(doff), dlen) (the region's own get_slice)
 //! obs:   per step  [ok,count,late]  then per region  [dirty bit per page, +2 margin]  [changed-byte runs o,n,...]
 //!
 //!   accessor opcode 6 (descriptor read) a4: 0 a file holding a3 bytes, 1 a write-only descriptor (EBADF, nothing
@@ -30,9 +38,10 @@ use std::sync::Arc;
 use std::sync::Mutex;
 use vm_memory::bitmap::{ArcSlice, AtomicBitmap, Bitmap, BitmapSlice, RefSlice, WithBitmapSlice};
 use vm_memory::mmap::MmapRegionBuilder;
+use vm_memory::volatile_memory::{VolatileArrayRef, VolatileRef};
 use vm_memory::{
-    Bytes, GuestAddress, GuestMemory, GuestMemoryMmap, GuestMemoryRegion, GuestRegionMmap, VolatileMemory,
-    VolatileSlice,
+    ByteValued, Bytes, GuestAddress, GuestMemory, GuestMemoryMmap, GuestMemoryRegion, GuestRegionMmap, MemoryRegionAddress,
+    VolatileMemory, VolatileSlice,
 };
 
 pub const SUITES: &[Suite] = &[Suite { name: "C05", gen, exec }, Suite { name: "C16", gen, exec }];
@@ -401,6 +410,48 @@ fn run<B: Flavour + 'static>(case: &[Tok], nreg: usize) -> Vec<Tok> {
                     }
                 }
             }
+            5 => {
+                let ri = s[1] as usize;
+                let (rk, rx, ry, rz) = (s[2], s[3], s[4], s[5]);
+                // the region the first accessor lands in, from the geometry of the case (rk = 3: a guest address)
+                let ri_eff = if rk == 3 { geos.iter().position(|g| rx >= g.start && rx - g.start < g.size as u64) } else if ri < regs.len() { Some(ri) } else { None };
+                if ri >= regs.len() {
+                    (false, 0)
+                } else {
+                    if let Some(k) = ri_eff {
+                        REGION_BASE.store(regs[k].as_ptr() as usize, Ordering::SeqCst);
+                        REGION_MAPLEN.store(geos[k].size.div_ceil(4096) * 4096, Ordering::SeqCst);
+                    }
+                    let nch = s[11] as usize;
+                    let chain: Vec<[u64; 4]> = (0..nch).map(|k| [s[12 + 4 * k], s[13 + 4 * k], s[14 + 4 * k], s[15 + 4 * k]]).collect();
+                    run_root(&gm, regs[ri], &None, [rk, rx, ry, rz], &chain, &s[6..11])
+                }
+            }
+            6 => {
+                let ri = s[1] as usize;
+                if ri >= regs.len() {
+                    (false, 0)
+                } else {
+                    REGION_BASE.store(regs[ri].as_ptr() as usize, Ordering::SeqCst);
+                    REGION_MAPLEN.store(geos[ri].size.div_ceil(4096) * 4096, Ordering::SeqCst);
+                    region_op(regs[ri], &s[2..7])
+                }
+            }
+            7 => {
+                let (ri, rj) = (s[1] as usize, s[6] as usize);
+                if ri >= regs.len() || rj >= regs.len() || s[2] == 3 {
+                    (false, 0)
+                } else {
+                    match regs[rj].get_slice(MemoryRegionAddress(s[7]), s[8] as usize) {
+                        Err(_) => (false, 0),
+                        Ok(d) => {
+                            let nch = s[9] as usize;
+                            let chain: Vec<[u64; 4]> = (0..nch).map(|k| [s[10 + 4 * k], s[11 + 4 * k], s[12 + 4 * k], s[13 + 4 * k]]).collect();
+                            run_root(&gm, regs[ri], &Some(d), [s[2], s[3], s[4], s[5]], &chain, &[20, 0, 0, 0, 0])
+                        }
+                    }
+                }
+            }
             2 => {
                 if let Some(b) = regs.get(s[1] as usize).and_then(|r| r.bitmap().inner()) {
                     b.reset();
@@ -416,7 +467,7 @@ fn run<B: Flavour + 'static>(case: &[Tok], nreg: usize) -> Vec<Tok> {
             _ => (false, 0),
         };
         // the step has returned: every changed byte must have been noted by a mark of its page
-        let late: u64 = if s[0] <= 1 || s[0] == 4 { regs.iter().map(|r| r.bitmap().take_late()).sum() } else { 0 };
+        let late: u64 = if s[0] <= 1 || s[0] >= 4 { regs.iter().map(|r| r.bitmap().take_late()).sum() } else { 0 };
         out.push(Tok::L(vec![ok as u128, count as u128, late as u128]));
         for (r, g) in regs.iter().zip(&geos) {
             let np = g.size.div_ceil(g.ps);
@@ -475,6 +526,106 @@ fn r1<T, E>(r: Result<T, E>, f: impl FnOnce(T) -> u64) -> (bool, u64) {
     }
 }
 
+
+/// the FIRST accessor of a step of kind 5 / 7 (root kind rk, see the header), then the chain and the op
+fn run_root<'a, B: Bitmap + 'static>(
+    gm: &'a GuestMemoryMmap<B>,
+    reg: &'a GuestRegionMmap<B>,
+    dst: &Option<VolatileSlice<'a, <B as WithBitmapSlice<'a>>::S>>,
+    root: [u64; 4],
+    chain: &[[u64; 4]],
+    op: &[u64],
+) -> (bool, u64) {
+    let [rk, rx, ry, rz] = root;
+    // the mapping behind the region (GuestRegionMmap: Deref<Target = MmapRegion<B>>)
+    let map: &'a vm_memory::mmap::MmapRegion<B> = reg;
+    match rk {
+        0 => run_chain(dst, reg.as_volatile_slice().unwrap(), chain, op),
+        1 => match VolatileMemory::get_slice(map, rx as usize, ry as usize) {
+            Ok(s) => run_chain(dst, s, chain, op),
+            Err(_) => (false, 0),
+        },
+        2 => match GuestMemoryRegion::get_slice(reg, MemoryRegionAddress(rx), ry as usize) {
+            Ok(s) => run_chain(dst, s, chain, op),
+            Err(_) => (false, 0),
+        },
+        3 => match gm.get_slice(GuestAddress(rx), ry as usize) {
+            Ok(s) => run_chain(dst, s, chain, op),
+            Err(_) => (false, 0),
+        },
+        4 => with_ty!(ry, T, {
+            match map.get_ref::<T>(rx as usize) {
+                Err(_) => (false, 0),
+                Ok(r) => ref_rest(dst, r, chain, op),
+            }
+        }, { (false, 0) }),
+        5 => with_ty!(ry, T, {
+            match map.get_array_ref::<T>(rx as usize, rz as usize) {
+                Err(_) => (false, 0),
+                Ok(arr) => arr_rest(dst, arr, chain, op),
+            }
+        }, { (false, 0) }),
+        _ => (false, 0),
+    }
+}
+
+/// a typed reference: `to_slice` and on along the chain, or the op on the reference itself
+fn ref_rest<'a, T: ByteValued, S: BitmapSlice>(dst: &Option<VolatileSlice<'a, S>>, r: VolatileRef<'a, T, S>, rest: &[[u64; 4]], op: &[u64]) -> (bool, u64) {
+    match rest.first() {
+        Some([6, ..]) => run_chain(dst, r.to_slice(), &rest[1..], op),
+        Some(_) => (false, 0),
+        None => match op[0] {
+            13 => { r.store(yval::<T>()); (true, std::mem::size_of::<T>() as u64) }
+            14 => { let _ = r.load(); (true, std::mem::size_of::<T>() as u64) }
+            _ => (false, 0),
+        },
+    }
+}
+
+/// an element array: `to_slice` / `ref_at` and on along the chain, or the op on the array itself
+fn arr_rest<'a, T: ByteValued, S: BitmapSlice>(dst: &Option<VolatileSlice<'a, S>>, arr: VolatileArrayRef<'a, T, S>, rest: &[[u64; 4]], op: &[u64]) -> (bool, u64) {
+    match rest.first() {
+        Some([6, ..]) => run_chain(dst, arr.to_slice(), &rest[1..], op),
+        Some([5, i, ..]) => {
+            if (*i as usize) >= arr.len() { return (false, 0); }
+            ref_rest(dst, arr.ref_at(*i as usize), &rest[1..], op)
+        }
+        Some(_) => (false, 0),
+        None => {
+            let esz = std::mem::size_of::<T>() as u64;
+            match op[0] {
+                15 => if (op[1] as usize) < arr.len() { arr.store(op[1] as usize, yval::<T>()); (true, esz) } else { (false, 0) },
+                16 => if (op[1] as usize) < arr.len() { let _ = arr.load(op[1] as usize); (true, esz) } else { (false, 0) },
+                17 => {
+                    let buf: Vec<T> = (0..op[1] as usize).map(|_| yval::<T>()).collect();
+                    arr.copy_from(&buf);
+                    // copy_from returns (): the count is the number of elements that fit
+                    (true, (op[1] as usize).min(arr.len()) as u64)
+                }
+                18 => {
+                    let mut buf: Vec<T> = (0..op[1] as usize).map(|_| yval::<T>()).collect();
+                    (true, arr.copy_to(&mut buf) as u64)
+                }
+                20 => match dst {
+                    // VolatileArrayRef::copy_to_volatile_slice into the destination slice of the step
+                    Some(d) => {
+                        let (sp, sl) = (arr.ptr_guard().as_ptr() as usize, arr.len() * arr.element_size());
+                        match copy_prepare(sp, sl, d) {
+                            Some(n) => {
+                                arr.copy_to_volatile_slice(d.clone());
+                                (true, n)
+                            }
+                            None => (false, 0),
+                        }
+                    }
+                    None => (false, 0),
+                },
+                _ => (false, 0),
+            }
+        }
+    }
+}
+
 /// processes the derivation chain on a slice accessor, then the operation `op` = [code,a1,a2,a3,a4]
 fn run_chain<'a, S: BitmapSlice>(dst: &Option<VolatileSlice<'a, S>>, cur: VolatileSlice<'a, S>, chain: &[[u64; 4]], op: &[u64]) -> (bool, u64) {
     if chain.is_empty() {
@@ -498,70 +649,13 @@ fn run_chain<'a, S: BitmapSlice>(dst: &Option<VolatileSlice<'a, S>>, cur: Volati
         3 => with_ty!(y, T, {
             match cur.get_ref::<T>(x as usize) {
                 Err(_) => (false, 0),
-                Ok(r) => match rest.first() {
-                    Some([6, ..]) => run_chain(dst, r.to_slice(), &rest[1..], op),
-                    Some(_) => (false, 0),
-                    None => match op[0] {
-                        13 => { r.store(yval::<T>()); (true, std::mem::size_of::<T>() as u64) }
-                        14 => { let _ = r.load(); (true, std::mem::size_of::<T>() as u64) }
-                        _ => (false, 0),
-                    },
-                },
+                Ok(r) => ref_rest(dst, r, rest, op),
             }
         }, { (false, 0) }),
         4 => with_ty!(y, T, {
             match cur.get_array_ref::<T>(x as usize, z as usize) {
                 Err(_) => (false, 0),
-                Ok(arr) => match rest.first() {
-                    Some([6, ..]) => run_chain(dst, arr.to_slice(), &rest[1..], op),
-                    Some([5, i, ..]) => {
-                        if (*i as usize) >= arr.len() { return (false, 0); }
-                        let r = arr.ref_at(*i as usize);
-                        match rest.get(1) {
-                            Some([6, ..]) => run_chain(dst, r.to_slice(), &rest[2..], op),
-                            Some(_) => (false, 0),
-                            None => match op[0] {
-                                13 => { r.store(yval::<T>()); (true, std::mem::size_of::<T>() as u64) }
-                                14 => { let _ = r.load(); (true, std::mem::size_of::<T>() as u64) }
-                                _ => (false, 0),
-                            },
-                        }
-                    }
-                    Some(_) => (false, 0),
-                    None => {
-                        let esz = std::mem::size_of::<T>() as u64;
-                        match op[0] {
-                            15 => if (op[1] as usize) < arr.len() { arr.store(op[1] as usize, yval::<T>()); (true, esz) } else { (false, 0) },
-                            16 => if (op[1] as usize) < arr.len() { let _ = arr.load(op[1] as usize); (true, esz) } else { (false, 0) },
-                            17 => {
-                                let buf: Vec<T> = (0..op[1] as usize).map(|_| yval::<T>()).collect();
-                                arr.copy_from(&buf);
-                                // copy_from returns (): the count is the number of elements that fit
-                                let cnt = if esz == 1 { (op[1] as usize).min(arr.len()) } else { (op[1] as usize).min(arr.len()) };
-                                (true, cnt as u64)
-                            }
-                            18 => {
-                                let mut buf: Vec<T> = (0..op[1] as usize).map(|_| yval::<T>()).collect();
-                                (true, arr.copy_to(&mut buf) as u64)
-                            }
-                            20 => match dst {
-                                // VolatileArrayRef::copy_to_volatile_slice into the destination slice of the step
-                                Some(d) => {
-                                    let (sp, sl) = (arr.ptr_guard().as_ptr() as usize, arr.len() * arr.element_size());
-                                    match copy_prepare(sp, sl, d) {
-                                        Some(n) => {
-                                            arr.copy_to_volatile_slice(d.clone());
-                                            (true, n)
-                                        }
-                                        None => (false, 0),
-                                    }
-                                }
-                                None => (false, 0),
-                            },
-                            _ => (false, 0),
-                        }
-                    }
-                },
+                Ok(arr) => arr_rest(dst, arr, rest, op),
             }
         }, { (false, 0) }),
         _ => (false, 0),
@@ -569,22 +663,9 @@ fn run_chain<'a, S: BitmapSlice>(dst: &Option<VolatileSlice<'a, S>>, cur: Volati
 }
 
 fn slice_op<'a, S: BitmapSlice>(dst: &Option<VolatileSlice<'a, S>>, s: &VolatileSlice<'a, S>, op: &[u64]) -> (bool, u64) {
-    let (code, a1, a2, a3, a4) = (op[0], op[1] as usize, op[2] as usize, op[3] as usize, op[4]);
+    let (code, a1, a2) = (op[0], op[1] as usize, op[2] as usize);
     let cap = 1usize << 16;
     match code {
-        0 => r1(s.write(&vec![Y; a1.min(cap)], a2), |v| v as u64),
-        1 => match s.write_slice(&vec![Y; a1.min(cap)], a2) {
-            Ok(()) => (true, a1 as u64),
-            Err(vm_memory::VolatileMemoryError::PartialBuffer { completed, .. }) => (false, completed as u64),
-            Err(_) => (false, 0),
-        },
-        2 => match a1 {
-            1 => r1(s.store(Y, a2, Ordering::SeqCst), |_| 1),
-            2 => r1(s.store(0xeeeeu16, a2, Ordering::SeqCst), |_| 2),
-            4 => r1(s.store(0xeeee_eeeeu32, a2, Ordering::SeqCst), |_| 4),
-            8 => r1(s.store(0xeeee_eeee_eeee_eeeeu64, a2, Ordering::SeqCst), |_| 8),
-            _ => (false, 0),
-        },
         3 => with_ty!(a1 as u64, T, {
             let buf: Vec<T> = (0..a2.min(cap)).map(|_| yval::<T>()).collect();
             s.copy_from(&buf);
@@ -592,13 +673,89 @@ fn slice_op<'a, S: BitmapSlice>(dst: &Option<VolatileSlice<'a, S>>, s: &Volatile
             let cnt = if esz == 0 { 0 } else if esz == 1 { a2.min(s.len()) } else { a2.min(s.len() / esz) };
             (true, cnt as u64)
         }, { (false, 0) }),
+        10 => with_ty!(a1 as u64, T, {
+            let mut buf: Vec<T> = (0..a2.min(cap)).map(|_| yval::<T>()).collect();
+            (true, s.copy_to(&mut buf) as u64)
+        }, { (false, 0) }),
+        20 => match dst {
+            // VolatileSlice::copy_to_volatile_slice into the destination slice of the step
+            Some(d) => {
+                let (sp, sl) = (s.ptr_guard().as_ptr() as usize, s.len());
+                match copy_prepare(sp, sl, d) {
+                    Some(n) => {
+                        s.copy_to_volatile_slice(d.clone());
+                        (true, n)
+                    }
+                    None => (false, 0),
+                }
+            }
+            None => (false, 0),
+        },
+        21 | 22 => (false, 0),
+        _ => bytes_op(
+            s,
+            &|a| a,
+            &|e| match e {
+                vm_memory::VolatileMemoryError::PartialBuffer { completed, .. } => Some(*completed),
+                _ => None,
+            },
+            op,
+        ),
+    }
+}
+
+/// REGION layer: `Bytes<MemoryRegionAddress> for GuestRegionMmap` (src/mmap/mod.rs)
+fn region_op<B: Bitmap + 'static>(r: &GuestRegionMmap<B>, op: &[u64]) -> (bool, u64) {
+    let (code, a1, a2) = (op[0], op[1] as usize, op[2]);
+    let done = |e: &vm_memory::GuestMemoryError| match e {
+        vm_memory::GuestMemoryError::PartialBuffer { completed, .. } => Some(*completed),
+        _ => None,
+    };
+    let addr = MemoryRegionAddress(a2);
+    match code {
+        3 | 10 | 13..=18 | 20 => (false, 0),
+        // write_obj / read_obj of a `size_of T = a1` object
+        21 => with_ty!(a1 as u64, T, {
+            match r.write_obj(yval::<T>(), addr) {
+                Ok(()) => (true, a1 as u64),
+                Err(e) => (false, done(&e).unwrap_or(0) as u64),
+            }
+        }, { (false, 0) }),
+        22 => with_ty!(a1 as u64, T, {
+            match r.read_obj::<T>(addr) {
+                Ok(_) => (true, a1 as u64),
+                Err(e) => (false, done(&e).unwrap_or(0) as u64),
+            }
+        }, { (false, 0) }),
+        _ => bytes_op(r, &|a| MemoryRegionAddress(a as u64), &done, op),
+    }
+}
+
+/// the op codes every `Bytes<A>` implementor has (slice level: A = usize; region level: A = MemoryRegionAddress);
+/// `at` makes an address of the layer, `done` extracts `completed` from the layer's PartialBuffer error
+fn bytes_op<A, L: Bytes<A>>(s: &L, at: &dyn Fn(usize) -> A, done: &dyn Fn(&L::E) -> Option<usize>, op: &[u64]) -> (bool, u64) {
+    let (code, a1, a2, a3, a4) = (op[0], op[1] as usize, op[2] as usize, op[3] as usize, op[4]);
+    let cap = 1usize << 16;
+    match code {
+        0 => r1(s.write(&vec![Y; a1.min(cap)], at(a2)), |v| v as u64),
+        1 => match s.write_slice(&vec![Y; a1.min(cap)], at(a2)) {
+            Ok(()) => (true, a1 as u64),
+            Err(e) => (false, done(&e).unwrap_or(0) as u64),
+        },
+        2 => match a1 {
+            1 => r1(s.store(Y, at(a2), Ordering::SeqCst), |_| 1),
+            2 => r1(s.store(0xeeeeu16, at(a2), Ordering::SeqCst), |_| 2),
+            4 => r1(s.store(0xeeee_eeeeu32, at(a2), Ordering::SeqCst), |_| 4),
+            8 => r1(s.store(0xeeee_eeee_eeee_eeeeu64, at(a2), Ordering::SeqCst), |_| 8),
+            _ => (false, 0),
+        },
         4 => {
             let src = vec![Y; a3.min(cap)];
-            r1(s.read_volatile_from(a2, &mut &src[..], a1), |v| v as u64)
+            r1(s.read_volatile_from(at(a2), &mut &src[..], a1), |v| v as u64)
         }
         5 => {
             let src = vec![Y; a3.min(cap)];
-            r1(s.read_exact_volatile_from(a2, &mut &src[..], a1), |_| a1 as u64)
+            r1(s.read_exact_volatile_from(at(a2), &mut &src[..], a1), |_| a1 as u64)
         }
         6 => {
             // a real descriptor: a temp file holding `a3` bytes of Y, or (a4 != 0) a write-only
@@ -623,7 +780,7 @@ fn slice_op<'a, S: BitmapSlice>(dst: &Option<VolatileSlice<'a, S>>, s: &Volatile
                     assert_eq!(unsafe { libc::mprotect((base + a3) as *mut libc::c_void, maplen - a3, libc::PROT_NONE) }, 0);
                     NOACCESS_FROM.store(a3, Ordering::SeqCst);
                 }
-                let r = crate::util::catch(|| s.read_volatile_from(a2, &mut f, a1));
+                let r = crate::util::catch(|| s.read_volatile_from(at(a2), &mut f, a1));
                 NOACCESS_FROM.store(usize::MAX, Ordering::SeqCst);
                 if guard {
                     assert_eq!(
@@ -640,7 +797,7 @@ fn slice_op<'a, S: BitmapSlice>(dst: &Option<VolatileSlice<'a, S>>, s: &Volatile
             } else if a4 != 0 {
                 let fd = unsafe { libc::open(b"/dev/null\0".as_ptr() as *const libc::c_char, libc::O_WRONLY) };
                 let mut f = unsafe { std::fs::File::from_raw_fd(fd) };
-                match s.read_volatile_from(a2, &mut f, a1) {
+                match s.read_volatile_from(at(a2), &mut f, a1) {
                     Ok(v) => (true, v as u64),
                     Err(_) => (false, 0),
                 }
@@ -649,48 +806,29 @@ fn slice_op<'a, S: BitmapSlice>(dst: &Option<VolatileSlice<'a, S>>, s: &Volatile
                 let mut f = unsafe { std::fs::File::from_raw_fd(fd) };
                 f.write_all(&vec![Y; a3.min(cap)]).unwrap();
                 f.rewind().unwrap();
-                r1(s.read_volatile_from(a2, &mut f, a1), |v| v as u64)
+                r1(s.read_volatile_from(at(a2), &mut f, a1), |v| v as u64)
             }
         }
-        7 => r1(s.read(&mut vec![0u8; a1.min(cap)], a2), |v| v as u64),
-        8 => match s.read_slice(&mut vec![0u8; a1.min(cap)], a2) {
+        7 => r1(s.read(&mut vec![0u8; a1.min(cap)], at(a2)), |v| v as u64),
+        8 => match s.read_slice(&mut vec![0u8; a1.min(cap)], at(a2)) {
             Ok(()) => (true, a1 as u64),
-            Err(vm_memory::VolatileMemoryError::PartialBuffer { completed, .. }) => (false, completed as u64),
-            Err(_) => (false, 0),
+            Err(e) => (false, done(&e).unwrap_or(0) as u64),
         },
         9 => match a1 {
-            1 => r1(s.load::<u8>(a2, Ordering::SeqCst), |_| 1),
-            2 => r1(s.load::<u16>(a2, Ordering::SeqCst), |_| 2),
-            4 => r1(s.load::<u32>(a2, Ordering::SeqCst), |_| 4),
-            8 => r1(s.load::<u64>(a2, Ordering::SeqCst), |_| 8),
+            1 => r1(s.load::<u8>(at(a2), Ordering::SeqCst), |_| 1),
+            2 => r1(s.load::<u16>(at(a2), Ordering::SeqCst), |_| 2),
+            4 => r1(s.load::<u32>(at(a2), Ordering::SeqCst), |_| 4),
+            8 => r1(s.load::<u64>(at(a2), Ordering::SeqCst), |_| 8),
             _ => (false, 0),
         },
-        10 => with_ty!(a1 as u64, T, {
-            let mut buf: Vec<T> = (0..a2.min(cap)).map(|_| yval::<T>()).collect();
-            (true, s.copy_to(&mut buf) as u64)
-        }, { (false, 0) }),
         11 => {
             let mut sink: Vec<u8> = Vec::new();
-            r1(s.write_volatile_to(a2, &mut sink, a1), |v| v as u64)
+            r1(s.write_volatile_to(at(a2), &mut sink, a1), |v| v as u64)
         }
         12 => {
             let mut sink: Vec<u8> = Vec::new();
-            r1(s.write_all_volatile_to(a2, &mut sink, a1), |_| a1 as u64)
+            r1(s.write_all_volatile_to(at(a2), &mut sink, a1), |_| a1 as u64)
         }
-        20 => match dst {
-            // VolatileSlice::copy_to_volatile_slice into the destination slice of the step
-            Some(d) => {
-                let (sp, sl) = (s.ptr_guard().as_ptr() as usize, s.len());
-                match copy_prepare(sp, sl, d) {
-                    Some(n) => {
-                        s.copy_to_volatile_slice(d.clone());
-                        (true, n)
-                    }
-                    None => (false, 0),
-                }
-            }
-            None => (false, 0),
-        },
         19 => {
             // stream write OUT of memory into a real descriptor: a memfd that takes everything, or (a4 != 0) a
             // read-only descriptor on which write(2) fails with EBADF - neither may mark anything
@@ -701,7 +839,7 @@ fn slice_op<'a, S: BitmapSlice>(dst: &Option<VolatileSlice<'a, S>>, s: &Volatile
                 unsafe { libc::memfd_create(b"vmhw\0".as_ptr() as *const libc::c_char, 0) }
             };
             let mut f = unsafe { std::fs::File::from_raw_fd(fd) };
-            r1(s.write_volatile_to(a2, &mut f, a1.min(cap)), |v| v as u64)
+            r1(s.write_volatile_to(at(a2), &mut f, a1.min(cap)), |v| v as u64)
         }
         _ => (false, 0),
     }
@@ -768,7 +906,19 @@ fn gen_fault(rng: &mut Rng, tier: Tier, emit: &mut dyn FnMut(Vec<Tok>)) {
             // accessor: the region itself, a sub-slice, or an offset slice
             let mut chain: Vec<u64> = Vec::new();
             let (mut aoff, mut len, mut nch) = (0u64, size, 0u64);
-            for _ in 0..rng.below(3) {
+            // first accessor: the whole region, or the region's / the mapping's / the guest memory's get_slice at an
+            // (unaligned) offset; or no accessor at all: the op on the region layer
+            let rk = *rng.pick(&[0u64, 0, 0, 1, 2, 3, 9]);
+            let mut root = [0u64; 4];
+            if (1..=3).contains(&rk) {
+                let o = *rng.pick(&[1u64, 8, 100, 2048, 4000, 4088, 4095, 4097, 6000]) + rng.below(5);
+                let o = o.min(size - 1);
+                let c = size - o - rng.below((size - o) / 4 + 1);
+                root = [rk, if rk == 3 { start + o } else { o }, c, 0];
+                aoff = o;
+                len = c;
+            }
+            for _ in 0..(if rk == 9 { 0 } else { rng.below(3) }) {
                 if rng.bool() {
                     let o = rng.below(len / 2 + 1);
                     let c = len - o - rng.below((len - o) / 4 + 1);
@@ -808,7 +958,11 @@ fn gen_fault(rng: &mut Rng, tier: Tier, emit: &mut dyn FnMut(Vec<Tok>)) {
                 // interleave a reset / an ordinary write so that marks of earlier steps matter
                 case.push(Tok::of_u64s(&[2, 0]));
             }
-            let mut st = vec![0, 0, 6, cnt, addr, fault, 2, nch];
+            let mut st = match rk {
+                9 => vec![6, 0, 6, cnt, addr, fault, 2],
+                0 => vec![0, 0, 6, cnt, addr, fault, 2, nch],
+                _ => vec![5, 0, root[0], root[1], root[2], root[3], 6, cnt, addr, fault, 2, nch],
+            };
             st.extend_from_slice(&chain);
             case.push(Tok::of_u64s(&st));
         }
@@ -854,7 +1008,33 @@ fn gen(rng: &mut Rng, tier: Tier, emit: &mut dyn FnMut(Vec<Tok>)) {
                     let len = pick_near(rng, &[0, 1, ps, size]);
                     case.push(Tok::of_u64s(&[3, ri, off, len]));
                 }
-                2..=6 => {
+                5..=8 => {
+                    // REGION layer (Bytes<MemoryRegionAddress>): every op code, in and out of range, short sources
+                    let code = *rng.pick(&[0u64, 0, 1, 1, 2, 4, 4, 5, 5, 5, 6, 7, 8, 9, 11, 12, 19, 21, 21, 22]);
+                    let off = pick_near(rng, &[0, size, size.saturating_sub(1), ps, size / 2, ps.saturating_sub(3), ps + ps / 2]);
+                    let room = size.saturating_sub(off);
+                    let (a1, off) = match code {
+                        2 | 9 => {
+                            let sz = *rng.pick(&[1u64, 2, 4, 8]);
+                            (sz, if rng.chance(3, 4) { off & !(sz - 1) } else { off })
+                        }
+                        21 | 22 => (*rng.pick(&[1u64, 2, 3, 4, 8, 16, 0]), off),
+                        _ => (pick_near(rng, &[0, 1, 8, ps, 2 * ps, room, room + 1, size, 2 * size + 9]).min(60_000), off),
+                    };
+                    let (a3, a4) = match code {
+                        // in-memory sources: complete, short, empty
+                        4 | 5 => (pick_near(rng, &[a1, a1, a1 / 2, 0, a1.saturating_sub(1), size]).min(60_000), 0),
+                        6 if rng.chance(1, 4) => {
+                            let first = (off / 4096 + 1) * 4096;
+                            (if rng.chance(1, 4) { (off / 4096) * 4096 } else { first + 4096 * rng.below(2) }, 2)
+                        }
+                        6 => (pick_near(rng, &[a1, a1 / 2, 0, 3]).min(60_000), rng.below(3) / 2),
+                        19 => (0, rng.below(2)),
+                        _ => (0, 0),
+                    };
+                    case.push(Tok::of_u64s(&[6, ri, code, a1, off, a3, a4]));
+                }
+                2..=4 => {
                     // guest level
                     let (start, _, _) = geos[ri as usize];
                     let addr = start.wrapping_add(pick_near(rng, &[0, size, size.saturating_sub(1), ps, size / 2]));
@@ -877,8 +1057,57 @@ fn gen(rng: &mut Rng, tier: Tier, emit: &mut dyn FnMut(Vec<Tok>)) {
                     let mut kind = 0u64; // 0 slice, 1 ref, 2 arr(esz,n)
                     let mut esz = 0u64;
                     let mut nel = 0u64;
+                    // the FIRST accessor: region.as_volatile_slice() (0) or one of the crate's other ways to a first accessor
+                    // of a region, at an offset that is mostly NOT a multiple of the page size
+                    let rk = *rng.pick(&[0u64, 0, 0, 1, 2, 2, 3, 3, 4, 5]);
+                    let mut root = [rk, 0u64, 0, 0];
+                    let mut dead = false;
+                    let (rstart, _, _) = geos[ri as usize];
+                    let unaligned = |rng: &mut Rng| pick_near(rng, &[ps.saturating_sub(8), ps / 2 + 1, ps + ps / 2, size / 2, 1, 3 * ps + 5, size, 0]);
+                    match rk {
+                        1 | 2 | 3 => {
+                            let o = unaligned(rng).min(size + 2);
+                            let c = pick_near(rng, &[size.saturating_sub(o), size.saturating_sub(o), 16, ps, 2 * ps + 3, 1, 0]);
+                            root = [rk, if rk == 3 { rstart.wrapping_add(o) } else { o }, c, 0];
+                            if o.checked_add(c).map_or(false, |e| e <= size) && (rk != 3 || o < size) { len = c; aoff = o; } else { dead = true; }
+                        }
+                        4 => {
+                            let sz = *rng.pick(&[1u64, 2, 3, 4, 8, 16, 0]);
+                            let o = pick_near(rng, &[ps.saturating_sub(1), ps.saturating_sub(sz / 2), size.saturating_sub(sz), ps + 3, 0]);
+                            root = [rk, o, sz, 0];
+                            kind = 1;
+                            len = sz;
+                            aoff = o;
+                            if o + sz > size { dead = true; }
+                            else if rng.chance(1, 3) { chain.extend_from_slice(&[6, 0, 0, 0]); nch += 1; kind = 0; }
+                        }
+                        5 => {
+                            let sz = *rng.pick(&[1u64, 2, 3, 4, 8, 16, 0]);
+                            let o = unaligned(rng).min(size);
+                            let maxn = if sz == 0 { 5 } else { (size - o) / sz };
+                            let nn = pick_near(rng, &[maxn, maxn / 2, 1, 0, 5]).min(maxn + 1).min(2000);
+                            root = [rk, o, sz, nn];
+                            kind = 2;
+                            esz = sz;
+                            nel = nn;
+                            len = nn * sz;
+                            aoff = o;
+                            if o + nn * sz > size { dead = true; } else {
+                                match rng.below(4) {
+                                    0 => { chain.extend_from_slice(&[6, 0, 0, 0]); nch += 1; kind = 0; }
+                                    1 if nel > 0 => {
+                                        let i = rng.below(nel);
+                                        chain.extend_from_slice(&[5, i, 0, 0]); nch += 1; kind = 1; len = esz; aoff += i * esz;
+                                        if rng.chance(1, 3) { chain.extend_from_slice(&[6, 0, 0, 0]); nch += 1; kind = 0; }
+                                    }
+                                    _ => {}
+                                }
+                            }
+                        }
+                        _ => {}
+                    }
                     for _ in 0..depth {
-                        if kind != 0 {
+                        if kind != 0 || dead {
                             break;
                         }
                         match rng.below(6) {
@@ -955,7 +1184,14 @@ fn gen(rng: &mut Rng, tier: Tier, emit: &mut dyn FnMut(Vec<Tok>)) {
                                 pick_near(rng, &[len, 1, psj, sizej, 0, len + psj]).min(sizej + 2),
                             )
                         };
-                        let mut st = vec![4, ri, rj, doff, dlen, nch];
+                        let mut st = if rk == 0 && rng.bool() {
+                            vec![4, ri, rj, doff, dlen, nch]
+                        } else if rk == 3 {
+                            // (no guest-memory source for the copy step: take the region's own get_slice)
+                            vec![7, ri, 2, root[1].wrapping_sub(rstart), root[2], 0, rj, doff, dlen, nch]
+                        } else {
+                            vec![7, ri, root[0], root[1], root[2], root[3], rj, doff, dlen, nch]
+                        };
                         st.extend_from_slice(&chain);
                         case.push(Tok::of_u64s(&st));
                         continue;
@@ -1006,7 +1242,7 @@ fn gen(rng: &mut Rng, tier: Tier, emit: &mut dyn FnMut(Vec<Tok>)) {
                             }
                         }
                     };
-                    let mut st = vec![0, ri, code, a1, a2, a3, a4, nch];
+                    let mut st = if rk == 0 { vec![0, ri, code, a1, a2, a3, a4, nch] } else { vec![5, ri, root[0], root[1], root[2], root[3], code, a1, a2, a3, a4, nch] };
                     st.extend_from_slice(&chain);
                     case.push(Tok::of_u64s(&st));
                 }
